@@ -64,7 +64,8 @@ def behaviour(rnd):
            "idLen": rnd.choice([0, 16, 16, 40, 64, 255]), "hmac": rnd.choice(["off", "uvonly", "withoutuv", "withoutuv"]), "mc": rnd.random() < 0.5,
            "storeKind": "slot" if slot else ("memory" if memory else "reference"),
            "disc": "forced" if slot or memory else rnd.choice(["full", "full", "nondisc", "forced"]),
-           "emptyAsErr": False if slot or memory else rnd.random() < 0.5}
+           "emptyAsErr": False if slot or memory else rnd.random() < 0.5,
+           "wrap": "none" if slot or memory else rnd.choice(["none", "none", "mutex", "rwlock", "arcmutex", "arcrwlock"])}
     store = []
     for cid in ["c1", "c2", "c3"][: (rnd.choice([0, 1]) if slot else rnd.choice([0, 1, 2, 3]))]:
         store.append({"id": cid, "rp": rnd.choice(["r1", "r1", "r2"]), "user": rnd.choice(["u1", "u2", "none"]), "ctr": ctr(rnd),
